@@ -43,11 +43,11 @@ PROPS = {
                      "include_depth_crossed_80", "include_depth_crossed_160", "unknown_context", "surplus_end", "eof_without_newline", "include_open_failed", "contexts_crossed_20",
                      "contexts_crossed_160", "unbalanced_input", "file_opened_but_unreadable", "empty_file"]),
     "C14": P(["asan"], 30, 900,
-             "plans = 1..20 URL texts per run (4/5 assembled from component tuples over small alphabets with each optional part present/absent, 1/5 arbitrary byte strings), "
+             "plans = 1..20 URLs per run (4/5 from component tuples over small alphabets with each optional part present/absent -- three quarters of those as text, one quarter assembled through the setters, unparsed and parsed again; 1/5 arbitrary byte strings), "
              "one simulated name-service table per run (7 bits: tcp/udp/ip protocols, http/ftp/dns services, a service whose protocol is missing), two stack paints per URL; "
              "oracle = reference splitter + port rule + canonical unparse + parse(unparse) round trip + identical components under both paints + allocator ledger; "
              "distinct = distinct trace hash; non-trivial = >= 3 URLs",
-             probes=["wellformed_url", "proto_is_protocol_name", "service_found_tcp", "service_found_udp_only", "service_proto_missing", "colon_in_password", "query_without_path"]),
+             probes=["wellformed_url", "proto_is_protocol_name", "service_found_tcp", "service_found_udp_only", "service_proto_missing", "colon_in_password", "query_without_path", "assembled_url_roundtrip"]),
     "C15": P(["plain5", "plain"], 30, 900,
              "plans = (a) 3..80 tracked malloc/calloc/realloc/strdup/free calls over 12 pointer slots (through spifmem_* and through the MALLOC/REALLOC/FREE macros as library code sees them), "
              "NULL/zero-size/unknown-pointer cases, untracked prefix at runtime level 4, simulated allocator underneath deciding moves and immediate address reuse; tracker table compared with a "
